@@ -996,7 +996,15 @@ fn collect_packages_in_item(
             }
         }
         ast::Item::Package(_) | ast::Item::Import(_) | ast::Item::Interface(_) => {}
-        ast::Item::TypeAlias(_) => {}
+        // `type Time = time.Time` refers to its package although no call does
+        ast::Item::TypeAlias(alias) => {
+            if let crate::go::goty::GoType::TName { name } = &alias.ty
+                && let Some((pkg, _)) = name.split_once('.')
+                && imports.contains(pkg)
+            {
+                used.insert(pkg.to_string());
+            }
+        }
     }
 }
 
